@@ -470,6 +470,17 @@ def c11(run):
     for body, exp, rec in ga.builder_cases():
         ps.add(body, exp, rec)
     ps.execute()
+    # collect_const!: "an array whose length and contents equal collecting the same iterator" for every adapter chain
+    # of the iterator-DSL grammar up to depth 2 (the descriptors of IterDsl.tla with the consumer `collect`)
+    dsl, coll = vec("C11-IterDsl-d2.ndjson"), vec("C11-IterDsl-collect.ndjson")
+    if os.path.exists(dsl):
+        os.remove(dsl)
+    run.mc("MC_IterDsl", "IterDsl.d2.cfg", env={"OUT": dsl}, heap="8g", timeout=3000)
+    with open(coll, "w") as f:
+        for l in open(dsl):
+            if json.loads(l)["cons"] == "collect":
+                f.write(l)
+    _iterdsl_programs(run, coll, "C11-collect").execute()
     run.assumptions += [BOUNDED, "closure exits are generated from a fixed template (exit statement at a chosen "
                         "element); a 3 s timeout stands for non-termination"]
 
@@ -609,6 +620,20 @@ def c18(run):
         ps.add(body, "G:%s|R:%s" % (gexp, rexp[:60] + "..."), rec, accept=accept)
     run.samples.append({"form": "strip_prefix", "alts": gp.ALTSETS[3], "literal tokens": [gp.LIT[x][2] for b in gp.ALTSETS[3] for x in b]})
     ps.execute()
+    # the macro forms as Parser actions (Parser.tla): applied to every parser state of a small graph - in particular
+    # states last advanced from the end - and compared on remainder, offsets *and direction* with the chain of method
+    # calls the form stands for.  Only the pm_* operations are compared here (the others belong to C13 / C14).
+    pout, pm = vec("C18-Parser.ndjson"), vec("C18-Parser-pm.ndjson")
+    if os.path.exists(pout):
+        os.remove(pout)
+    run.mc("MC_Parser", "Parser.c01.cfg" if q else "Parser.quick.cfg", env={"OUT": pout}, heap="8g", timeout=3000)
+    with open(pm, "w") as f:
+        for l in open(pout):
+            r = json.loads(l)
+            r["outs"] = [o for o in r["outs"] if o["o"]["op"].startswith("pm_")]
+            r["only_pm"] = 1
+            f.write(json.dumps(r) + "\n")
+    run.replay([pm], "parser_method! forms on every parser state")
     run.assumptions += ["rustc's own decoding of every literal token is observed in the same program (const L: &str = <token>) "
                         "and must equal the specification's decoder (else tool error)",
                         "alternative lists and input alphabet are fixed tables (lib/gen_parsermethod.py, generated into "
